@@ -843,7 +843,10 @@ def run(rep, tier):
         sh, why = fwd.shape_multi(fn) if fn else (None, 'missing')
         ok = bool(sh) and sh[-1]['callee'] == (fs or {}).get('id') and sh[-1]['ret'] == 'returned' and len(sh) <= 2
         rep.ob('R-FWD-STR', 'TryFrom<%s>' % src, ok, 'forwards to from_str: %s (%s)' % (sh, why))
-    rep.assume('CONTRACT A (assumed, for the value clause V-PARSE-VALUE only): skip_leading_zeroes consumes the maximal prefix of \'0\' bytes; accum_coeff consumes the maximal prefix of k ASCII digits and leaves '
+    rep.assume('CONTRACT A is used by clauses (2) and (3); its byte-at-a-time part is PROVED here (H-SCAN-STEP: in skip_leading_zeroes, accum_exp and the tail loop of accum_coeff one iteration from the generalised loop state '
+               'consumes exactly one byte, that byte was tested to be \'0\' resp. a digit, the accumulator becomes fold(10 * old + digit) with the arithmetic of the body, and on return the next byte, if any, is outside the class); '
+               'what stays ASSUMED: the 8-bytes-at-once step of accum_coeff (chunk_contains_8_digits is true exactly for eight ASCII digits, chunk_to_u64 is their value - SWAR bit tricks), and that folding step by step equals folding the whole numeral.')
+    rep.assume('CONTRACT A as used (statement): skip_leading_zeroes consumes the maximal prefix of \'0\' bytes; accum_coeff consumes the maximal prefix of k ASCII digits and leaves '
                '*coeff = (*coeff * 10^k + value of these digits) folded with the arithmetic its body uses (all multiply / add steps wrapping_* -> modulo 2^128, all saturating_* -> min(.., 2^128-1); read off the MIR, '
                'anything else fails the check), returning k; accum_exp likewise, exact for at most 2 digits. The SWAR digit test / conversion (chunk_contains_8_digits, chunk_to_u64) is inside this contract.')
     rep.assume('NOT decided: contract A itself; whether a literal with a zero coefficient and an exponent beyond 38 (99) should be accepted (it is rejected)')
